@@ -36,7 +36,7 @@ ASSUMPTIONS = [
     "no other live node has taken over a serialized id at deserialization time (alive-subsets arise from dropping handles / detaching whole trees)",
     "Any-typed properties, NaN/inf, lone surrogates and ints beyond 64 bits are outside the generator",
 ]
-MUST_SEE = ["user_dialect_roundtrips", "payload_read_again", "equal_but_distinct_source_objects", "subclass_clear_registry_calls", "union_field_non_first_member", "other_dialect_call_before_roundtrip", "recreated_with_suffix_id", "shared_subtrees", "fresh_process_cases", "subforest_alive", "none_alive", "all_alive", "multi_origin", "hostile_strings", "index_sources", "yaml", "msgpck", "json", "failed_call_before_roundtrip"]
+MUST_SEE = ["twin_population_changed_before_read", "user_dialect_roundtrips", "payload_read_again", "equal_but_distinct_source_objects", "subclass_clear_registry_calls", "union_field_non_first_member", "other_dialect_call_before_roundtrip", "recreated_with_suffix_id", "shared_subtrees", "fresh_process_cases", "subforest_alive", "none_alive", "all_alive", "multi_origin", "hostile_strings", "index_sources", "yaml", "msgpck", "json", "failed_call_before_roundtrip"]
 CONFIG = {
     "quick": {"shards": 16, "trees": 60, "fresh": 6, "watchdog_s": 600},
     "thorough": {"shards": 32, "trees": 400, "fresh": 60, "watchdog_s": 3400},
@@ -197,8 +197,9 @@ def run_shard(ctx):
             twins = []
             if force_suffix:
                 # content-identical twins outside the tree, registered first -> the tree's nodes get suffix ids
-                tw = build(U, deep_copy(s))
-                twins.append(tw)
+                # (one, two or three of them: suffix _1, _2, _3)
+                for _ in range(rng.choice([1, 1, 2, 2, 3])):
+                    twins.append(build(U, deep_copy(s)))
             distinct_sources = rng.random() < 0.25
             if distinct_sources:
                 # every origin carries its own source object, equal to but distinct from the registered one
@@ -253,6 +254,14 @@ def run_shard(ctx):
                     alive_objs[p + q] = m
             del paths, root
             n = p = q = m = None
+            if len(twins) > 1 and alive_mode != "all" and rng.random() < 0.6:
+                # some of the twins are gone by the time the payload is read (the elder one stays, a middle one goes ...):
+                # the ids the re-created nodes compute carry another suffix than the serialized ones
+                gone = rng.choice(["middle", "middle", "first", "all_but_first"])
+                idxs = {"middle": [1], "first": [0], "all_but_first": list(range(1, len(twins)))}[gone]
+                for i in sorted(idxs, reverse=True):
+                    twins.pop(i).detach()
+                ctx.count("twin_population_changed_before_read")
             collect()
             if rng.random() < 0.3:
                 # unrelated earlier calls with other dialects / options (their output is of no interest here)
